@@ -206,6 +206,9 @@ class ExprMixin(object):
             ty = self.reg.classes.get(obj.ty.name, {}).get(attr)
             if ty is not None:
                 return [(st, core.ufun("attr_%s_%s" % key, [obj], ty))]
+            c = self.reg.methods.get(key)
+            if c is not None and list(c.params) == ["self"]:
+                return self.call_contract(c, [obj], {}, st, node)      # a property under contract
         raise OutsideSubset("attribute %s on %r" % (attr, obj.ty))
 
     # -- displays -----------------------------------------------------------------------------------
